@@ -96,6 +96,13 @@ def description_texts():
         for n in (70, 76, 78, 80, 82):
             out.append("| " + "x" * (n - 8) + " " + "y" * 6 + " " + ws + "zz qq\n")
             out.append("b {\n\t| " + "x" * (n - 12) + " " + "y" * 6 + " " + ws + "zz qq\n}\n")
+    # descriptions whose text ends (or starts) with a character that is structure elsewhere, around a blank line
+    for end in ("{", "}", "[", "]", "=", "|", "//", "/*", "*/", "\\", ":", "!", "?", '"'):
+        for gap in ("\n", "\n\n"):
+            out.append("| words " + end + gap + "| more words\n")
+            out.append("b {\n\t| words " + end + gap + "\t| more words\n}\n")
+            out.append("| " + end + " words" + gap + "a = 1\n")
+            out.append("b {" + gap + "\t| words " + end + gap + "}\n")
     # empty description lines in every position of a short block, already-canonical and not
     for n in range(1, 5):
         for mask in range(2 ** n):
@@ -268,6 +275,11 @@ def run(chk):
         raw.append({"text": t, "cls": "description-reflow"})
     if prop in ("C09", "C19"):
         raw += reflow_cases(chk, quick, W)
+    # documents that end inside a token (the state of a buffer while typing), with and without a final line break
+    for head in ("", "a = 1\n", "b {\n\t"):
+        for open_tok in ("/* todo", "/* two\nlines", '"str', '"esc\\', "/re", "| desc", "// c", "x = [1,", "x = ", "b {", "a.b"):
+            for tail in ("", "\n", "\n\n", " \n", "\r\n"):
+                raw.append({"text": head + open_tok + tail, "cls": "ends-inside-token"})
     for t in random_texts(rng, 1500 if quick else 40000):
         raw.append({"text": t, "cls": "random"})
     # canonical texts with other whitespace: re-indent / blank lines of fixtures
